@@ -10,6 +10,8 @@
 From Coq Require Import List ZArith NArith Bool.
 From TF Require Import Base Query Index DB Spec IO proofs.IOP proofs.PlanP proofs.PureP proofs.IndexDefs proofs.DBReadP proofs.IOGenP.
 From TF Require gen.IOGen.
+From TF Require Import GateSem proofs.GatesGenP.
+From TF Require gen.GatesGen.
 Import ListNotations.
 
 Theorem C15_reads_pure : forall old p k, pure_plan p ->
@@ -55,6 +57,23 @@ Theorem C15_source_handles_keep_text_options :
   IOGen.reopen_same_file = true /\ IOGen.open_uses_given_options = true /\ IOGen.newline_default_untranslated = true.
 Proof. exact gen_handle_options. Qed.
 
+(* THE ACCESS GATES, read off tinyflux/database.py and measurement.py on every run (gen/GatesGen.v: per method its gates - the decorators, each read from its
+   own definition -, the storage calls it makes directly, the methods it calls; effects closed over the calls inside Coq): for EVERY public method of the
+   database and of a Measurement handle, nothing that replaces stored contents is reachable without passing the write gate, nothing that appends without the
+   append (or write) gate, nothing that stages or swaps without temp_storage_op (scratch storage set up before and cleaned up after, also on a raise) *)
+Theorem C15_source_every_rewriting_method_is_behind_the_write_gate : forall m, In m GatesGen.gen_methods -> m_public m = true ->
+  has_effect ESwap (reach_of (has_gate GWrite) GatesGen.gen_methods m) = false /\ has_effect EReset (reach_of (has_gate GWrite) GatesGen.gen_methods m) = false.
+Proof. exact every_rewriting_method_is_behind_the_write_gate. Qed.
+Theorem C15_source_every_appending_method_is_behind_the_append_gate : forall m, In m GatesGen.gen_methods -> m_public m = true ->
+  has_effect EAppend (reach_of (fun x => has_gate GAppend x || has_gate GWrite x) GatesGen.gen_methods m) = false.
+Proof. exact every_appending_method_is_behind_the_append_gate. Qed.
+Theorem C15_source_every_staging_method_runs_inside_temp_storage_op : forall m, In m GatesGen.gen_methods -> m_public m = true ->
+  has_effect EStage (reach_of (has_gate GTemp) GatesGen.gen_methods m) = false /\ has_effect ESwap (reach_of (has_gate GTemp) GatesGen.gen_methods m) = false.
+Proof. exact every_staging_method_runs_inside_temp_storage_op. Qed.
+Theorem C15_source_gate_rules_are_not_vacuous : some_effect ESwap GatesGen.gen_methods = true /\ some_effect EReset GatesGen.gen_methods = true
+  /\ some_effect EAppend GatesGen.gen_methods = true /\ some_effect EStage GatesGen.gen_methods = true.
+Proof. exact gates_nonvacuous. Qed.
+
 Print Assumptions C15_reads_pure.
 Print Assumptions C15_read_leaves_file_and_rows.
 Print Assumptions C15_unchanged_write_leaves_file.
@@ -63,3 +82,7 @@ Print Assumptions C15_no_temp_left.
 Print Assumptions C15_clean_after_every_operation.
 Print Assumptions C15_source_scripts_are_the_model.
 Print Assumptions C15_source_handles_keep_text_options.
+Print Assumptions C15_source_every_rewriting_method_is_behind_the_write_gate.
+Print Assumptions C15_source_every_appending_method_is_behind_the_append_gate.
+Print Assumptions C15_source_every_staging_method_runs_inside_temp_storage_op.
+Print Assumptions C15_source_gate_rules_are_not_vacuous.
